@@ -5,6 +5,7 @@ import (
 	"strings"
 
 	"github.com/couchbase/moss"
+	vs "vsched"
 )
 
 // C03 - batches become visible atomically and in order under concurrency (engine G2).
@@ -24,6 +25,7 @@ type c03State struct {
 	nWriters int
 	grand    bool // batches also write a grandchild collection K<i>/G
 	syncRead bool // the reader issues a synchronous NotifyMerger between its snapshots
+	pollRead bool // the reader yields between its snapshots (a polling reader: one snapshot per scheduling turn)
 }
 
 func atoiOr0(b []byte) int {
@@ -131,6 +133,9 @@ func (st *c03State) reader(n int, useGet bool) func() {
 			if st.syncRead && k+1 < n {
 				st.w.coll.(interface{ NotifyMerger(string, bool) error }).NotifyMerger("reader", true)
 			}
+			if st.pollRead && k+1 < n {
+				vs.Yield("reader-poll")
+			}
 		}
 	}
 }
@@ -179,11 +184,11 @@ func (st *c03State) final(deadlock string) []Violation {
 	return out
 }
 
-func c03Program(name string, cfg Config, readers int, grand, syncRead bool) g2Program {
+func c03Program(name string, cfg Config, readers int, grand, syncRead bool, poll ...bool) g2Program {
 	return g2Program{Name: name, Build: func() (*World, func() *Violation, func(string) []Violation) {
 		w := NewWorld(cfg, nil)
 		w.gateOff = true
-		st := &c03State{w: w, nWriters: 2, grand: grand, syncRead: syncRead}
+		st := &c03State{w: w, nWriters: 2, grand: grand, syncRead: syncRead, pollRead: len(poll) > 0 && poll[0]}
 		if w.infra != "" {
 			return w, nil, st.final
 		}
@@ -204,6 +209,7 @@ func init() {
 			c03Program("same, store-backed (real Persist in the persister thread), CachePersisted", Config{Backing: "store", MinMergePct: 0.01, MaxPre: 1, CachePersisted: true}, 2, false, false),
 			c03Program("batches also write a grandchild collection, MaxPreMergerBatches=2 (two unmerged batches side by side), in-memory", Config{Backing: "none", MinMergePct: 100, MaxPre: 2}, 3, true, false),
 			c03Program("reader x 4 snapshots with a synchronous NotifyMerger between them, MaxPreMergerBatches=1, in-memory", Config{Backing: "none", MinMergePct: 100, MaxPre: 1}, 4, false, true),
+			c03Program("polling reader x 4 snapshots (yields between snapshots), MaxPreMergerBatches=1, in-memory", Config{Backing: "none", MinMergePct: 100, MaxPre: 1}, 4, false, false, true),
 		}
 		if tier == "thorough" {
 			progs = append(progs, c03Program("store-backed with forced compaction, DeferredSort, grandchild", Config{Backing: "store", MinMergePct: 100, MaxPre: 1, Concern: 2, DeferredSort: true}, 2, true, false))
